@@ -46,9 +46,31 @@ pub enum Site {
     DeleteWhere,
     JoinOn,
     CaseWhen,
+    /// partial index predicate (`Index::create()` is a ConditionalStatement); Postgres and SQLite write it
+    IndexWhere,
+    /// `ON CONFLICT (..) DO UPDATE SET .. WHERE <cond>` (action_and_where / action_and_where_option / action_cond_where)
+    ConflictActionWhere,
+    /// `ON CONFLICT (..) WHERE <cond> DO NOTHING` (target_and_where / ..)
+    ConflictTargetWhere,
 }
 
-pub const SITES: [Site; 7] = [Site::SelectWhere, Site::SelectHaving, Site::UpdateWhere, Site::DeleteWhere, Site::JoinOn, Site::CaseWhen, Site::SelectHavingNoGroup];
+pub const SITES: [Site; 10] = [
+    Site::SelectWhere,
+    Site::SelectHaving,
+    Site::UpdateWhere,
+    Site::DeleteWhere,
+    Site::JoinOn,
+    Site::CaseWhen,
+    Site::SelectHavingNoGroup,
+    Site::IndexWhere,
+    Site::ConflictActionWhere,
+    Site::ConflictTargetWhere,
+];
+
+/// MySQL has no partial indexes and no conflict predicates (the backend writes neither, by design)
+fn site_applies(site: Site, d: Dialect) -> bool {
+    !(d == Dialect::Mysql && matches!(site, Site::IndexWhere | Site::ConflictActionWhere | Site::ConflictTargetWhere))
+}
 
 #[derive(Serialize, Deserialize, Clone, Debug, PartialEq, Eq, Hash)]
 pub struct Case {
@@ -288,6 +310,55 @@ fn render(site: Site, calls: &[Call], d: Dialect) -> String {
             let q = Query::select().column(a("id")).expr(CaseStatement::new().case(cond, 1).finally(0)).from(a("tt")).to_owned();
             with_backend!(d, b => q.to_string(b))
         }
+        Site::IndexWhere => {
+            let mut ix = Index::create().name("ix06").table(a("tt")).col(a("id")).to_owned();
+            apply_where(&mut ix, calls);
+            with_backend!(d, b => ix.to_string(b))
+        }
+        Site::ConflictActionWhere | Site::ConflictTargetWhere => {
+            let mut oc = OnConflict::column(a("id"));
+            let action = site == Site::ConflictActionWhere;
+            if action {
+                oc.value(a("mark"), 1);
+            } else {
+                oc.do_nothing();
+            }
+            for c in calls {
+                match (c, action) {
+                    (Call::And(i), true) => {
+                        oc.action_and_where(atom_expr(*i));
+                    }
+                    (Call::And(i), false) => {
+                        oc.target_and_where(atom_expr(*i));
+                    }
+                    (Call::AndOption(o), true) => {
+                        oc.action_and_where_option(o.map(atom_expr));
+                    }
+                    (Call::AndOption(o), false) => {
+                        oc.target_and_where_option(o.map(atom_expr));
+                    }
+                    (Call::Cond(CS::Atom(i)), true) => {
+                        oc.action_cond_where(atom_expr(*i));
+                    }
+                    (Call::Cond(CS::Atom(i)), false) => {
+                        oc.target_cond_where(atom_expr(*i));
+                    }
+                    (Call::Cond(g), true) => {
+                        oc.action_cond_where(build_group(g));
+                    }
+                    (Call::Cond(g), false) => {
+                        oc.target_cond_where(build_group(g));
+                    }
+                }
+            }
+            // every existing id conflicts, so the action runs once per row
+            let mut q = Query::insert().into_table(a("tt")).columns([a("id")]).to_owned();
+            for i in 0..all_rows().len() as i64 {
+                q.values_panic([i.into()]);
+            }
+            q.on_conflict(oc);
+            with_backend!(d, b => q.to_string(b))
+        }
     }
 }
 
@@ -412,12 +483,15 @@ pub fn check(c: &Case, obs: &mut Obs) -> R {
     let want_true: Vec<i64> = expected.iter().enumerate().filter(|(_, v)| matches!(v, Some(Some(true)) | None)).map(|(i, _)| i as i64).collect();
     let site = c.site;
     let kw = match site {
-        Site::SelectWhere | Site::UpdateWhere | Site::DeleteWhere => "WHERE",
+        Site::SelectWhere | Site::UpdateWhere | Site::DeleteWhere | Site::IndexWhere | Site::ConflictActionWhere | Site::ConflictTargetWhere => "WHERE",
         Site::SelectHaving | Site::SelectHavingNoGroup => "HAVING",
         Site::JoinOn => "ON",
         Site::CaseWhen => "WHEN",
     };
     for d in DIALECTS {
+        if !site_applies(site, d) {
+            continue;
+        }
         let sig = |what: &str| format!("{what}/{:?}/{}", site, d.name());
         let sql = guard("render", || render(site, &c.calls, d))?;
         if d == Dialect::Sqlite {
@@ -427,7 +501,7 @@ pub fn check(c: &Case, obs: &mut Obs) -> R {
             Ok(t) => t,
             Err(e) => return fail(sig("lex-error"), format!("{sql:?}: {e:?}; calls {:?}", c.calls)),
         };
-        if !given && matches!(site, Site::SelectWhere | Site::SelectHaving | Site::SelectHavingNoGroup | Site::UpdateWhere | Site::DeleteWhere) {
+        if !given && matches!(site, Site::SelectWhere | Site::SelectHaving | Site::SelectHavingNoGroup | Site::UpdateWhere | Site::DeleteWhere | Site::IndexWhere | Site::ConflictActionWhere | Site::ConflictTargetWhere) {
             if has_keyword(&toks, kw) {
                 return fail(sig("predicate-without-condition"), format!("no condition was given but {sql:?} contains {kw}; calls {:?}", c.calls));
             }
@@ -447,6 +521,11 @@ pub fn check(c: &Case, obs: &mut Obs) -> R {
                 })()
             } else {
                 match predicate_tokens(&toks, kw) {
+                    // the conflict-target predicate ends at DO
+                    Some(pt) if site == Site::ConflictTargetWhere => {
+                        let end = pt.iter().position(|t| t.tok.is_word("DO")).unwrap_or(pt.len());
+                        crate::parse::parse_full_expr(d, &pt[..end])
+                    }
                     Some(pt) => crate::parse::parse_full_expr(d, pt),
                     None => Err(PErr::Syntax { at: 0, msg: format!("no top-level {kw} in the statement") }),
                 }
@@ -521,6 +600,33 @@ pub fn check(c: &Case, obs: &mut Obs) -> R {
                     v.sort();
                     v
                 }),
+                // the target predicate only selects the index to infer: no observable effect to compare
+                Site::ConflictTargetWhere => Ok(want_true.clone()),
+                Site::IndexWhere => BASE.with(|base| {
+                    base.rolled_back(|db| {
+                        db.exec(&sql)?;
+                        // the engine's own copy of the predicate, evaluated over the rows
+                        let stored = db.rows("SELECT \"sql\" FROM \"sqlite_master\" WHERE \"name\" = 'ix06'")?;
+                        let text = match stored.first().and_then(|r| r.first()) {
+                            Some(Cell::Text(t)) => t.clone(),
+                            other => return Err(crate::sqlite::SqlError { msg: format!("no stored index text: {other:?}"), interrupted: false }),
+                        };
+                        match text.split_once(" WHERE ") {
+                            Some((_, pred)) => db.rows(&format!("SELECT \"id\" FROM \"tt\" WHERE {pred}")),
+                            None => db.rows("SELECT \"id\" FROM \"tt\""),
+                        }
+                    })
+                })
+                .map(|r| ids(&r))
+                .map_err(|e| e.msg),
+                Site::ConflictActionWhere => BASE.with(|base| {
+                    base.rolled_back(|db| {
+                        db.exec(&sql)?;
+                        db.rows("SELECT \"id\" FROM \"tt\" WHERE \"mark\" = 1")
+                    })
+                })
+                .map(|r| ids(&r))
+                .map_err(|e| e.msg),
                 Site::UpdateWhere | Site::DeleteWhere => BASE.with(|base| {
                     base.rolled_back(|db| {
                         db.exec(&sql).map_err(|e| e.msg).and_then(|_| {
